@@ -15,7 +15,7 @@ ASSUMPTIONS = []
 
 def cases(rng, tier):
     n = 300 if tier == "quick" else 5000
-    return family_cases(rng, [("range", G.gen_range), ("layout", G.gen_layout)], n, faults=0.1)
+    return family_cases(rng, [("range", G.gen_range), ("layout", G.gen_layout), ("shrink", G.gen_shrink)], n, faults=0.1)
 
 
 def nontrivial(case, reply):
